@@ -357,8 +357,28 @@ def c04_straddle_layouts():
     return Ls
 
 
+def c04_permutation_layouts(tier):
+    """fields made of equal chunks in permuted order (bytes of a u32/u64/u128, nibbles of a u16)"""
+    import itertools
+    Ls = []
+    perms4 = list(itertools.permutations(range(4)))
+    pick = perms4 if tier != "quick" else [p for p in perms4 if p[0] == 3 and p[3] == 0] + [(0, 3, 2, 1), (1, 0, 3, 2), (2, 3, 0, 1), (3, 0, 1, 2), (0, 2, 1, 3)]
+    for p_ in pick:
+        for (W, ty, chunk, base_lo) in ((32, T_uint(32), 8, 0), (64, T_uint(32), 8, 16), (16, T_uint(16), 4, 0), (128, T_uint(128), 32, 0), (64, T_int(32), 8, 32)):
+            if tier == "quick" and (W, chunk) not in ((32, 8), (64, 8)) and p_ not in pick[:3]:
+                continue
+            rs = [(base_lo + k * chunk, chunk) for k in p_]
+            Ls.append(Layout(W, [Field("f", ty, rs, None, "rw")], tag=f"{chunk}-bit chunks in order {p_} as {ty.decl_ty()} on u{W}"))
+    # 8 bytes of a u64: a few permutations with the outer bytes in swap position
+    for mid in ((6, 5, 4, 3, 2, 1), (1, 2, 3, 4, 5, 6), (6, 4, 5, 2, 3, 1), (5, 6, 3, 4, 1, 2)):
+        p_ = (7,) + mid + (0,)
+        Ls.append(Layout(64, [Field("f", T_uint(64), [(k * 8, 8) for k in p_], None, "rw")], tag=f"bytes of a u64 in order {p_}"))
+        Ls.append(Layout(128, [Field("a", T_uint(64), [(k * 8, 8) for k in p_], (2, 64, True), "rw")], tag=f"array of u64 with bytes in order {p_} on u128"))
+    return Ls
+
+
 def plan_c04(tier, seed):
-    Ls = c04_layouts(tier, seed) + c04_straddle_layouts()
+    Ls = c04_layouts(tier, seed) + c04_straddle_layouts() + c04_permutation_layouts(tier)
     us = units_from(Ls, lambda L: sum([field_harnesses(L, f, "C04", twice=True) for f in L.fields], []))
     add_controls(us, "C04", kinds=("get", "set", "get"))
     return Plan(us, title="non-contiguous gather/scatter", chunk=220 if tier == "quick" else 600,
@@ -473,7 +493,12 @@ def c06_layouts(tier, seed):
                       (None, False, [], "no default, no fields")]
         for (d, legacy, fs, tag) in forms:
             import copy
-            Ls.append(Layout(N, copy.deepcopy(fs), default=d, legacy=legacy, tag=f"u{N}: {tag}"))
+            L = Layout(N, copy.deepcopy(fs), default=d, legacy=legacy, tag=f"u{N}: {tag}")
+            if d and d[0] == "const":
+                # names a generated item might also want to use for itself
+                L.const_name = ["MAX", "DEF_CONST", "MASK", "ZERO", "DEFAULT", "BITS", "MIN", "DEFAULT_RAW_VALUE", "RESET"][len(Ls) % 9]
+                L.tag += f" (constant named {L.const_name})"
+            Ls.append(L)
     return Ls
 
 
@@ -744,9 +769,34 @@ def placements(W, w):
     return P
 
 
+def c08_extra_layouts(tier):
+    """custom-typed fields as wide as the base over a permuted range list; qualified type paths"""
+    import copy
+    Ls = []
+    rnd = random.Random(88)
+    for W in (8, 16, 32, 64, 128, 24):
+        h = W // 2
+        lists = [[(h, W - h), (0, h)]]
+        if W >= 16:
+            q = W // 4
+            lists.append([(3 * q, W - 3 * q), (q, q), (2 * q, q), (0, q)])
+        for rs in lists:
+            for (ft, aux) in custom_types_for(W, "quick", rnd):
+                Ls.append(Layout(W, [Field("f", copy.deepcopy(ft), rs, None, "rw")], aux=[copy.deepcopy(aux)], tag=f"{ft.kind} as wide as the base over a permuted list on u{W}"))
+    for style in ("qualified", "abs", "std"):
+        for W in (16, 64, 24):
+            e = sparse_enum("EO", 3, [0, 5, 7], None)
+            Ls.append(Layout(W, [Field("f", FType("optenum", 3, e, path=style), [(2, 3)], None, "rw")], aux=[e], tag=f"Option<enum> written with a {style} path on u{W}"))
+            e = sparse_enum("EO", 3, [0, 5, 7], None)
+            Ls.append(Layout(W, [Field("f", FType("optenum", 3, e, path=style), [(1, 3)], (3, 4, True), "rw")], aux=[e], tag=f"array of Option<enum> written with a {style} path on u{W}"))
+            if style != "std":
+                Ls.append(Layout(W, [Field("f", FType("uint", 5, path=style), [(W - 5, 5)], None, "rw"), Field("g", FType("uint", 3, path=style), [(0, 3)], (2, 4, True), "rw")], tag=f"arbitrary-int types written with a {style} path on u{W}"))
+    return Ls
+
+
 def c08_layouts(tier, seed):
     rnd = random.Random(8)
-    Ls = []
+    Ls = c08_extra_layouts(tier)
     widths = [1, 2, 3, 4, 5, 7, 8, 9, 12, 15, 16, 17, 31, 32, 33, 63, 64, 65, 100, 127, 128] if tier != "quick" else [1, 2, 3, 7, 8, 9, 15, 16, 32, 64, 128]
     for w in widths:
         bases = []
@@ -1052,6 +1102,9 @@ def c13_layouts(tier, seed):
     Ls.append(Layout(8, [Field("a", T_uint(4), [(0, 1), (2, 1), (4, 1), (6, 1)], (2, 1, True), "rw")], tag="interleaving even/odd array with builder (documented test)"))
     Ls.append(Layout(24, [Field("a", T_uint(8), [(0, 8)], (3, 8, False), "w")], tag="u24 three bytes write-only complete"))
     Ls.append(Layout(9, [Field("r0", T_uint(4), [(0, 4)], None, "r"), Field("w0", T_uint(5), [(4, 5)], None, "w")], default=("lit", 0x1ff, "hex"), tag="read-only gap keeps default bits"))
+    # dense native-integer arrays that do not start at bit 0, in a storage wider than the packed array
+    for (W, ety, lo, K) in ((64, T_uint(8), 8, 4), (64, T_int(16), 16, 2), (128, T_uint(32), 32, 3), (32, T_uint(8), 8, 2), (128, T_int(8), 40, 8), (128, T_uint(64), 64, 1 + 0) if False else (128, T_uint(16), 72, 3), (48, T_uint(8), 16, 4), (100, T_int(32), 20, 2)):
+        Ls.append(Layout(W, [Field("lo", ty_for_width(lo, "u1"), [(0, lo)], None, "rw"), Field("a", ety, [(lo, ety.width)], (K, ety.width, False), "rw")], default=("lit", mask(W) ^ (1 << (W - 1)), "hex"), tag=f"dense [{ety.decl_ty()}; {K}] starting at bit {lo} of u{W}"))
     # strided arrays with gap bits: K * stride == base width, other fields / default bits live in the gaps
     for W in NATIVE_BASES + [24, 48, 100]:
         for w in (1, 4, 8):
@@ -1297,6 +1350,9 @@ def c16_layouts(tier, seed):
             Ls.append(Layout(W, [Field("f", T_uint(64), [(W - 32, 32), (0, 32)], None, "rw"), Field("g", T_int(64), [(0, 32), (W - 32, 32)], None, "rw")], tag=f"64-bit lists on u{W}"))
         if W >= 4:
             Ls.append(Layout(W, [Field("f", T_uint(2), [(W - 1, 1), (0, 1)], None, "rw"), Field("a", T_uint(2), [(0, 1), (W // 2, 1)], (2, 1, True), "rw")], tag=f"list touching top + array of lists on u{W}"))
+        if W >= 16:
+            K = min(W // 8, 4)
+            Ls.append(Layout(W, [Field("a", T_uint(8), [(4, 4), (0, 4)], (K, 8, True), "rw"), Field("b", T_uint(4), [(3, 1), (2, 1), (1, 1), (0, 1)], (K, W // K, True), "rw")], tag=f"arrays of DESCENDING range lists on u{W}"))
         # range lists of native-typed fields split at the extreme sizes: (n-1 | 1), (1 | n-1), halves;
         # signed and unsigned; the first piece at bit 0, the last ending on the top bit when it fits
         for n in NATIVE:
